@@ -38,12 +38,15 @@ structure FrameOr where
   stripTo : Int       -- value of `ret` after `while(ret>2&&data[ret]==0)ret--` (:2450)
   celtRed1 : Int      -- celt_encode_with_ec at :2295 (CELT->SILK redundancy)
   celtMain : Int      -- celt_encode_with_ec at :2349
-  celtRed2 : Int      -- celt_encode_with_ec at :2388 (SILK->CELT redundancy)
+  celtRed2 : Int      -- celt_encode_with_ec at :2390 (SILK->CELT redundancy)
+  used1 : Int         -- enc.offs+enc.end_offs at ec_enc_shrink(&enc, nb_compr_bytes) (:2276)
+  used2 : Int         -- enc.offs+enc.end_offs at ec_enc_shrink(&enc, ret) (:2385, hybrid SILK->CELT)
   deriving DecidableEq, Repr, Inhabited
 
 /-- A recorded inner call (for the tie): tag and integer arguments.
     1 silk_Encode(prefill, bitRate, maxBits, useCBR) · 2 celt_encode_with_ec(site, frame, nbytes)
-    3 opus_packet_pad(len, new_len, ret) · 4 repacketizer_cat(len, ret) · 5 out_range_impl(maxlen, pad, ret) -/
+    3 opus_packet_pad(len, new_len, ret) · 4 repacketizer_cat(len, ret) · 5 out_range_impl(maxlen, pad, ret)
+    6 ec_enc_shrink(size, offs+end_offs) -/
 abbrev Call := Nat × List Int
 
 /-- Arguments of `opus_encode_frame_native` that matter here. -/
@@ -141,124 +144,171 @@ def errRes (s : St) (calls : List Call) (e : Int) : FrameRes :=
 def abortRes (s : St) (calls : List Call) : FrameRes :=
   { ret := 0, abort := true, toc := 0, payload := 0, hdr := [], dtx := false, st := s, calls }
 
-/-- opus_encoder.c:1929-2133 (SILK processing).  In CELT-only mode nothing happens. -/
-def frSilk (fi : FrameIn) (p : Pre) (o : FrameOr) : Step Mid :=
-  let s := p.st
-  if s.mode = MODE_CELT_ONLY then
-    .cont { st := s, redundancy := p.redundancy, celtToSilk := p.celtToSilk, rb := p.rb,
-            currBw := s.bandwidth, calls := [] }
-  else
-    let m := fi.maxDataBytes
-    let frameRate := s.fs / fi.frameSize
-    let (bitRate, maxBits, useCBR) := silkBudget s fi p o
-    -- :2004 celt_assert( st->mode == MODE_HYBRID || curr_bandwidth == OPUS_BANDWIDTH_WIDEBAND )
-    if s.bandwidth ≠ BW_NB ∧ s.bandwidth ≠ BW_MB ∧ s.mode ≠ MODE_HYBRID ∧ s.bandwidth ≠ BW_WB then
-      .done (abortRes s [])
-    else
-      let calls : List Call := if p.prefill ≠ 0 then [(1, [p.prefill, bitRate, maxBits, useCBR])] else []
-      let s := if p.prefill ≠ 0 then { s with opusCanSwitch := 0 } else s
-      let calls := calls ++ [(1, [0, bitRate, maxBits, useCBR])]
-      let s := { s with allowBwSwitch := o.allowBw, inWBmode := o.inWB }
-      if o.silkRet ≠ 0 then .done (errRes s calls OPUS_INTERNAL_ERROR)          -- :2099
-      else
-        let currBw :=
-          if s.mode = MODE_SILK_ONLY then
-            if o.isr = 8000 then BW_NB else if o.isr = 12000 then BW_MB
-            else if o.isr = 16000 then BW_WB else s.bandwidth
-          else s.bandwidth
-        if s.mode ≠ MODE_SILK_ONLY ∧ o.isr ≠ 16000 then .done (abortRes s calls)   -- :2112 celt_assert
-        else
-          let canSwitch := b2i (o.switchReady ≠ 0 ∧ s.nonfinalFrame = 0)
-          let s := { s with opusCanSwitch := canSwitch }
-          if o.nBytes = 0 then
-            let toc := genToc s.mode (s.fs / fi.frameSize) currBw s.streamChannels
-            .done { ret := 1, abort := false, toc, payload := 0, hdr := [toc], dtx := true, st := s, calls }
-          else if canSwitch ≠ 0 then
-            let rb := computeRedundancyBytes m s.bitrateBps frameRate s.streamChannels
-            .cont { st := { s with silkBwSwitch := 1 }, redundancy := rb ≠ 0, celtToSilk := false, rb,
-                    currBw, calls }
-          else
-            .cont { st := s, redundancy := p.redundancy, celtToSilk := p.celtToSilk, rb := p.rb, currBw, calls }
+/-- The recorded silk_Encode calls (:2075-2096): an optional prefill call, then the coding call. -/
+def silkCalls (p : Pre) (sb : Int × Int × Int) : List Call :=
+  (if p.prefill ≠ 0 then [(1, [p.prefill, sb.1, sb.2.1, sb.2.2])] else []) ++ [(1, [0, sb.1, sb.2.1, sb.2.2])]
 
-/-- opus_encoder.c:2218-2250: returns `(redundancy, redundancy_bytes, st)`. -/
+/-- State after the silk_Encode calls: the prefill clears `opusCanSwitch` (:2092); the coding call
+    writes `allowBandwidthSwitch` and `inWBmodeWithoutVariableLP`. -/
+def silkSt (p : Pre) (o : FrameOr) : St :=
+  { p.st with opusCanSwitch := (if p.prefill ≠ 0 then 0 else p.st.opusCanSwitch),
+              allowBwSwitch := o.allowBw, inWBmode := o.inWB }
+
+/-- `curr_bandwidth` after :2104-2115. -/
+def silkCurrBw (s : St) (o : FrameOr) : Int :=
+  if s.mode = MODE_SILK_ONLY then
+    if o.isr = 8000 then BW_NB else if o.isr = 12000 then BW_MB
+    else if o.isr = 16000 then BW_WB else s.bandwidth
+  else s.bandwidth
+
+/-- `st->silk_mode.opusCanSwitch` (:2117). -/
+def canSwitch (s : St) (o : FrameOr) : Int := b2i (o.switchReady ≠ 0 ∧ s.nonfinalFrame = 0)
+
+/-- State after :2117. -/
+def silkSt2 (p : Pre) (o : FrameOr) : St := { (silkSt p o) with opusCanSwitch := canSwitch p.st o }
+
+/-- The SILK DTX return (:2119-2125). -/
+def silkDtxRes (fi : FrameIn) (p : Pre) (o : FrameOr) (calls : List Call) : FrameRes :=
+  { ret := 1, abort := false,
+    toc := genToc p.st.mode (p.st.fs / fi.frameSize) (silkCurrBw p.st o) p.st.streamChannels, payload := 0,
+    hdr := [genToc p.st.mode (p.st.fs / fi.frameSize) (silkCurrBw p.st o) p.st.streamChannels],
+    dtx := true, st := silkSt2 p o, calls }
+
+/-- opus_encoder.c:1931-2135 (SILK processing).  In CELT-only mode nothing happens. -/
+def frSilk (fi : FrameIn) (p : Pre) (o : FrameOr) : Step Mid :=
+  if p.st.mode = MODE_CELT_ONLY then
+    .cont { st := p.st, redundancy := p.redundancy, celtToSilk := p.celtToSilk, rb := p.rb,
+            currBw := p.st.bandwidth, calls := [] }
+  -- :2006 celt_assert( st->mode == MODE_HYBRID || curr_bandwidth == OPUS_BANDWIDTH_WIDEBAND )
+  else if p.st.bandwidth ≠ BW_NB ∧ p.st.bandwidth ≠ BW_MB ∧ p.st.mode ≠ MODE_HYBRID ∧ p.st.bandwidth ≠ BW_WB then
+    .done (abortRes p.st [])
+  else if o.silkRet ≠ 0 then
+    .done (errRes (silkSt p o) (silkCalls p (silkBudget p.st fi p o)) OPUS_INTERNAL_ERROR)          -- :2101
+  else if p.st.mode ≠ MODE_SILK_ONLY ∧ o.isr ≠ 16000 then
+    .done (abortRes (silkSt p o) (silkCalls p (silkBudget p.st fi p o)))                          -- :2114 celt_assert
+  else if o.nBytes = 0 then .done (silkDtxRes fi p o (silkCalls p (silkBudget p.st fi p o)))
+  else if canSwitch p.st o ≠ 0 then
+    .cont { st := { (silkSt2 p o) with silkBwSwitch := 1 },
+            redundancy := computeRedundancyBytes fi.maxDataBytes p.st.bitrateBps (p.st.fs / fi.frameSize)
+                            p.st.streamChannels ≠ 0,
+            celtToSilk := false,
+            rb := computeRedundancyBytes fi.maxDataBytes p.st.bitrateBps (p.st.fs / fi.frameSize) p.st.streamChannels,
+            currBw := silkCurrBw p.st o, calls := silkCalls p (silkBudget p.st fi p o) }
+  else
+    .cont { st := silkSt2 p o, redundancy := p.redundancy, celtToSilk := p.celtToSilk, rb := p.rb,
+            currBw := silkCurrBw p.st o, calls := silkCalls p (silkBudget p.st fi p o) }
+
+/-- Condition of :2220. -/
+def redGate (mode m : Int) (o : FrameOr) : Bool :=
+  decide (mode ≠ MODE_CELT_ONLY ∧ o.tellA + 17 + (if mode = MODE_HYBRID then 20 else 0) ≤ 8 * (m - 1))
+
+/-- Is the reading B (`:2233/:2236`) taken? -/
+def readsB (mode m : Int) (xred : Bool) (o : FrameOr) : Bool := redGate mode m o && xred
+
+/-- opus_encoder.c:2220-2252: returns `(redundancy, redundancy_bytes, st)`. -/
 def frRedSig (fi : FrameIn) (x : Mid) (o : FrameOr) : Bool × Int × St :=
   let s := x.st
   let m := fi.maxDataBytes
-  let hybrid := s.mode = MODE_HYBRID
-  let (redundancy, rb) :=
-    if s.mode ≠ MODE_CELT_ONLY ∧ o.tellA + 17 + (if hybrid then 20 else 0) ≤ 8 * (m - 1) then
-      if x.redundancy then
-        let maxRed := if hybrid then (m - 1) - (o.tellB + 8 + 3 + 7) / 8 else (m - 1) - (o.tellB + 7) / 8
-        (true, min 257 (max 2 (min maxRed x.rb)))
-      else (false, x.rb)
-    else (false, x.rb)
-  if redundancy then (true, rb, s) else (false, 0, { s with silkBwSwitch := 0 })
+  if readsB s.mode m x.redundancy o then
+    let maxRed := if s.mode = MODE_HYBRID then (m - 1) - (o.tellB + 8 + 3 + 7) / 8 else (m - 1) - (o.tellB + 7) / 8
+    (true, min 257 (max 2 (min maxRed x.rb)), s)
+  else (false, 0, { s with silkBwSwitch := 0 })
 
-/-- Locals after :2253-2395. -/
+/-- Locals after :2253-2397. -/
 structure Coded where
   ret : Int
   nbCompr : Int
-  calls : List Call
   deriving DecidableEq, Repr
 
-/-- opus_encoder.c:2253-2395.  `none` = one of the INTERNAL_ERROR returns (:2299, :2353, :2392). -/
+/-- Outcome of the coding block: locals, one of the INTERNAL_ERROR returns (:2301, :2355, :2394),
+    or the `celt_assert(offs+end_offs<=size)` of `ec_enc_shrink` (celt/entenc.c) firing. -/
+inductive CodeRes where
+  | ok : Coded → CodeRes
+  | ierr : CodeRes
+  | abort : CodeRes
+  deriving DecidableEq, Repr
+
+/-- `nb_compr_bytes` as first assigned (:2255-2277); `ret` is 0 before (silk_Encode returned 0, or
+    the initial value in CELT-only mode). -/
+def nbCompr0 (s : St) (fi : FrameIn) (rb : Int) (o : FrameOr) : Int :=
+  if s.mode = MODE_SILK_ONLY then (o.tellC + 7) / 8 else (fi.maxDataBytes - 1) - rb
+
+/-- Is the main CELT call made (:2309, :2349)? -/
+def runMain (s : St) (fi : FrameIn) (rb : Int) (o : FrameOr) : Bool :=
+  decide (s.mode ≠ MODE_SILK_ONLY ∧ o.tellD ≤ 8 * nbCompr0 s fi rb o)
+
+/-- opus_encoder.c:2253-2397. -/
 def frCode (s : St) (fi : FrameIn) (redundancy celtToSilk : Bool) (rb : Int) (o : FrameOr)
-    : Option Coded × List Call :=
-  let m := fi.maxDataBytes
+    : CodeRes × List Call :=
   let hybrid := s.mode = MODE_HYBRID
-  -- :2253-2275; `ret` is 0 here (silk_Encode returned 0, or the initial value in CELT-only mode)
   let ret : Int := if s.mode = MODE_SILK_ONLY then (o.tellC + 7) / 8 else 0
-  let nb : Int := if s.mode = MODE_SILK_ONLY then ret else (m - 1) - rb
-  -- :2289-2303
-  let c1 : List Call := if redundancy ∧ celtToSilk then [(2, [1, s.fs / 200, rb])] else []
-  if redundancy ∧ celtToSilk ∧ o.celtRed1 < 0 then (none, c1)
+  let nb : Int := nbCompr0 s fi rb o
+  -- :2276 ec_enc_shrink(&enc, nb_compr_bytes)
+  let c0 : List Call := if s.mode ≠ MODE_SILK_ONLY then [(6, [nb, o.used1])] else []
+  if s.mode ≠ MODE_SILK_ONLY ∧ o.used1 > nb then (.abort, c0)
+  else
+  -- :2291-2305
+  let c1 : List Call := c0 ++ (if redundancy ∧ celtToSilk then [(2, [1, s.fs / 200, rb])] else [])
+  if redundancy ∧ celtToSilk ∧ o.celtRed1 < 0 then (.ierr, c1)
   else
     let c2 : List Call :=
       if s.mode ≠ MODE_SILK_ONLY ∧ s.mode ≠ s.prevMode ∧ s.prevMode > 0 then [(2, [2, s.fs / 400, 2])] else []
-    let runMain := s.mode ≠ MODE_SILK_ONLY ∧ o.tellD ≤ 8 * nb
-    let c3 : List Call := if runMain then [(2, [3, fi.frameSize, nb])] else []
-    if runMain ∧ o.celtMain < 0 then (none, c1 ++ c2 ++ c3)
+    let run : Bool := runMain s fi rb o
+    let c3 : List Call := if run then [(2, [3, fi.frameSize, nb])] else []
+    if run ∧ o.celtMain < 0 then (.ierr, c1 ++ c2 ++ c3)
     else
-      let ret := if runMain then o.celtMain else ret
-      let nb := if runMain ∧ redundancy ∧ celtToSilk ∧ hybrid ∧ nb ≠ ret then ret + rb else nb
-      -- :2365-2395
+      let ret := if run then o.celtMain else ret
+      let nb := if run ∧ redundancy ∧ celtToSilk ∧ hybrid ∧ nb ≠ ret then ret + rb else nb
+      -- :2367-2397
       if redundancy ∧ ¬ celtToSilk then
+        -- :2385 ec_enc_shrink(&enc, ret) in hybrid mode
+        let c3 := c3 ++ (if hybrid then [(6, [ret, o.used2])] else [])
+        if hybrid ∧ o.used2 > ret then (.abort, c1 ++ c2 ++ c3)
+        else
         let nb := if hybrid then ret else nb
         let c4 : List Call := [(2, [4, s.fs / 400, 2]), (2, [5, s.fs / 200, rb])]
-        if o.celtRed2 < 0 then (none, c1 ++ c2 ++ c3 ++ c4)
-        else (some { ret, nbCompr := nb, calls := [] }, c1 ++ c2 ++ c3 ++ c4)
-      else (some { ret, nbCompr := nb, calls := [] }, c1 ++ c2 ++ c3)
+        if o.celtRed2 < 0 then (.ierr, c1 ++ c2 ++ c3 ++ c4)
+        else (.ok { ret, nbCompr := nb }, c1 ++ c2 ++ c3 ++ c4)
+      else (.ok { ret, nbCompr := nb }, c1 ++ c2 ++ c3)
 
-/-- opus_encoder.c:2399-2508. -/
+/-- DTX decision (:2416-2430): `(dtx, nb_no_activity_ms_Q1)`. -/
+def dtxDecision (s : St) (fi : FrameIn) (o : FrameOr) : Int × Int :=
+  if s.useDtx ≠ 0 ∧ (o.aValid ≠ 0 ∨ fi.isSilence ≠ 0)
+  then decideDtxMode o.activity s.nbNoActivity (cdiv (2 * 1000 * fi.frameSize) s.fs)
+  else (0, 0)
+
+/-- State after :2405-2430: `prev_*`, `first`, and the DTX counter. -/
+def finishSt (s : St) (fi : FrameIn) (o : FrameOr) : St :=
+  { s with prevMode := (if fi.toCelt then MODE_CELT_ONLY else s.mode),
+           prevChannels := s.streamChannels, prevFramesize := fi.frameSize, first := 0,
+           nbNoActivity := (dtxDecision s fi o).2 }
+
+/-- `ret` after :2434-2455 (before padding): a "busted" frame becomes one zero byte, trailing
+    zeros of a SILK-only frame are stripped, then the ToC and the redundancy are counted. -/
+def finishRet (s : St) (fi : FrameIn) (redundancy : Bool) (rb ret : Int) (o : FrameOr) : Int :=
+  (if o.tellE > (fi.maxDataBytes - 1) * 8 then 1
+   else if s.mode = MODE_SILK_ONLY ∧ ¬ redundancy then (if ret > 2 then max 2 (min ret o.stripTo) else ret)
+   else ret) + 1 + rb
+
+/-- opus_encoder.c:2401-2510. -/
 def frFinish (s : St) (fi : FrameIn) (redundancy : Bool) (rb currBw ret : Int) (o : FrameOr)
     (calls : List Call) : FrameRes :=
-  let m := fi.maxDataBytes
   let toc := genToc s.mode (s.fs / fi.frameSize) currBw s.streamChannels
-  let s := { s with prevMode := (if fi.toCelt then MODE_CELT_ONLY else s.mode),
-                    prevChannels := s.streamChannels, prevFramesize := fi.frameSize, first := 0 }
-  -- DTX decision (:2416-2427)
-  let dtx := if s.useDtx ≠ 0 ∧ (o.aValid ≠ 0 ∨ fi.isSilence ≠ 0)
-             then decideDtxMode o.activity s.nbNoActivity (cdiv (2 * 1000 * fi.frameSize) s.fs)
-             else (0, 0)
-  let s := { s with nbNoActivity := dtx.2 }
-  if dtx.1 ≠ 0 then { ret := 1, abort := false, toc, payload := 0, hdr := [toc], dtx := true, st := s, calls }
-  else if o.tellE > (m - 1) * 8 ∧ m < 2 then errRes s calls OPUS_BUFFER_TOO_SMALL      -- :2437
-  else
-    let ret :=
-      if o.tellE > (m - 1) * 8 then 1
-      else if s.mode = MODE_SILK_ONLY ∧ ¬ redundancy then
-        (if ret > 2 then max 2 (min ret o.stripTo) else ret)                            -- :2450
-      else ret
-    let ret := ret + 1 + rb
-    if s.useVbr = 0 then
-      let pr := padSpec toc [(ret - 1).toNat] ret m
-      let calls := calls ++ [(3, [ret, m, pr.1])]
-      if pr.1 ≠ OPUS_OK then errRes s calls OPUS_INTERNAL_ERROR                          -- :2503
-      else { ret := m, abort := false, toc, payload := ret - 1,
-             hdr := (match pr.2 with | some r => r.hdr | none => [toc]), dtx := false, st := s, calls }
-    else { ret, abort := false, toc, payload := ret - 1, hdr := [toc], dtx := false, st := s, calls }
+  let m := fi.maxDataBytes
+  let r := finishRet s fi redundancy rb ret o
+  if (dtxDecision s fi o).1 ≠ 0 then
+    { ret := 1, abort := false, toc, payload := 0, hdr := [toc], dtx := true, st := finishSt s fi o, calls }
+  else if o.tellE > (m - 1) * 8 ∧ m < 2 then errRes (finishSt s fi o) calls OPUS_BUFFER_TOO_SMALL      -- :2439
+  else if s.useVbr = 0 then
+    if (padSpec toc [(r - 1).toNat] r m).1 ≠ OPUS_OK then
+      errRes (finishSt s fi o) (calls ++ [(3, [r, m, (padSpec toc [(r - 1).toNat] r m).1])]) OPUS_INTERNAL_ERROR  -- :2505
+    else { ret := m, abort := false, toc, payload := r - 1,
+           hdr := (match (padSpec toc [(r - 1).toNat] r m).2 with | some q => q.hdr | none => [toc]),
+           dtx := false, st := finishSt s fi o,
+           calls := calls ++ [(3, [r, m, (padSpec toc [(r - 1).toNat] r m).1])] }
+  else { ret := r, abort := false, toc, payload := r - 1, hdr := [toc], dtx := false, st := finishSt s fi o, calls }
 
-/-- `opus_encode_frame_native` (opus_encoder.c:1763-2509). -/
+/-- `opus_encode_frame_native` (opus_encoder.c:1765-2511). -/
 def frameNative (s : St) (fi : FrameIn) (o : FrameOr) : FrameRes :=
   let p := frPre s fi
   match frSilk fi p o with
@@ -266,8 +316,9 @@ def frameNative (s : St) (fi : FrameIn) (o : FrameOr) : FrameRes :=
   | .cont x =>
     let (redundancy, rb, s) := frRedSig fi x o
     match frCode s fi redundancy x.celtToSilk rb o with
-    | (none, cs) => errRes s (x.calls ++ cs) OPUS_INTERNAL_ERROR
-    | (some c, cs) => frFinish s fi redundancy rb x.currBw c.ret o (x.calls ++ cs)
+    | (.abort, cs) => abortRes s (x.calls ++ cs)
+    | (.ierr, cs) => errRes s (x.calls ++ cs) OPUS_INTERNAL_ERROR
+    | (.ok c, cs) => frFinish s fi redundancy rb x.currBw c.ret o (x.calls ++ cs)
 
 /-! ### Contracts on the oracle values
 
@@ -276,35 +327,44 @@ def frameNative (s : St) (fi : FrameIn) (o : FrameOr) : FrameRes :=
 
   * silk_Encode (coding call) returns 0, `0 ≤ nBytes`, and in hybrid mode reports an internal
     rate of 16 kHz (it is called with min = max = 16000);
-  * `ec_tell ≥ 1`; coding `bit_logp(·,12)` / `bit_logp(·,1)` raises `ec_tell` by at most 12 / 1
-    (tell B vs. tell A); no range-coder operation happens between the readings B, C and E in
-    SILK-only mode (`ec_enc_done` leaves `nbits_total` and `rng` alone), so they are equal;
-  * celt_encode_with_ec called with `nbCompressedBytes ≥ 2` and a legal frame size returns a
-    value in `0..nbCompressedBytes` (it never grows the packet, and reports no coder error).
+  * range coder: `ec_tell ≥ 1`, and exactly 1 on a fresh encoder (CELT-only mode); coding
+    `bit_logp(·,12)` / `bit_logp(·,1)` / `uint(·,256)` raises `ec_tell` by at most 12 / 1 / 8;
+    `ec_enc_done` leaves `nbits_total` and `rng` alone, so with no coding operation in between
+    two readings are equal (B, C, E in SILK-only mode);  `8·(offs+end_offs)+1 ≤ ec_tell` and
+    `offs+end_offs ≤ storage` at any time;
+  * celt_encode_with_ec called with `2 ≤ nbCompressedBytes` and a legal frame size returns a
+    value in `0..nbCompressedBytes` (it never grows the packet and reports no coder error), and
+    the encoder it finished (`ec_enc_shrink` to the returned size, `ec_enc_done`, no error) holds
+    at most that many bytes; called with fewer than 2 bytes it returns OPUS_BAD_ARG (< 0).
   The harness records these values from the real functions, so the tie monitors the contract on
   every call (`ok=1` in the `O` line). -/
 
 def silkOk (s : St) (o : FrameOr) : Bool :=
   decide (s.mode = MODE_CELT_ONLY ∨ (o.silkRet = 0 ∧ 0 ≤ o.nBytes ∧ (s.mode = MODE_HYBRID → o.isr = 16000)))
 
-/-- Is the reading B (`:2231/:2234`) taken? -/
-def readsB (mode m : Int) (xred : Bool) (o : FrameOr) : Bool :=
-  decide (mode ≠ MODE_CELT_ONLY ∧ o.tellA + 17 + (if mode = MODE_HYBRID then 20 else 0) ≤ 8 * (m - 1)) && xred
-
 def tellsOk (mode m : Int) (xred : Bool) (o : FrameOr) : Bool :=
-  decide (mode = MODE_CELT_ONLY) ||
-  (decide (1 ≤ o.tellA) &&
-   (!(readsB mode m xred o) ||
-      decide (o.tellA ≤ o.tellB ∧ o.tellB ≤ o.tellA + (if mode = MODE_HYBRID then 13 else 1))) &&
-   (decide (mode ≠ MODE_SILK_ONLY) ||
-      decide (o.tellC = (if readsB mode m xred o then o.tellB else o.tellA) ∧ o.tellE = o.tellC)))
+  if mode = MODE_CELT_ONLY then decide (o.tellD = 1)
+  else
+    decide (1 ≤ o.tellA) &&
+    (!(readsB mode m xred o) ||
+       decide (o.tellA ≤ o.tellB ∧ o.tellB ≤ o.tellA + (if mode = MODE_HYBRID then 13 else 1))) &&
+    (if mode = MODE_SILK_ONLY then decide (o.tellC = (if readsB mode m xred o then o.tellB else o.tellA))
+     else decide (o.tellD ≤ (if readsB mode m xred o then o.tellB + 8
+                              else if redGate mode m o then o.tellA + 1 else o.tellA)))
 
-def celtOk (s : St) (fi : FrameIn) (redundancy celtToSilk : Bool) (rb : Int) (o : FrameOr) : Bool :=
-  let nb : Int := if s.mode = MODE_SILK_ONLY then (o.tellC + 7) / 8 else (fi.maxDataBytes - 1) - rb
-  let runMain := s.mode ≠ MODE_SILK_ONLY ∧ o.tellD ≤ 8 * nb
-  decide ((redundancy ∧ celtToSilk ∧ rb ≥ 2 → 0 ≤ o.celtRed1) ∧
-          (runMain ∧ nb ≥ 2 → 0 ≤ o.celtMain ∧ o.celtMain ≤ nb) ∧
-          (redundancy ∧ ¬ celtToSilk ∧ rb ≥ 2 → 0 ≤ o.celtRed2))
+/-- Contracts of the range-coder occupancy readings and the CELT calls. -/
+def coderOk (s : St) (fi : FrameIn) (redundancy celtToSilk : Bool) (rb : Int) (o : FrameOr) : Bool :=
+  let nb : Int := nbCompr0 s fi rb o
+  let run : Bool := runMain s fi rb o
+  decide (s.mode ≠ MODE_SILK_ONLY → 0 ≤ o.used1 ∧ o.used1 ≤ fi.maxDataBytes - 1 ∧ 8 * o.used1 + 1 ≤ o.tellD) &&
+  decide (redundancy ∧ celtToSilk → (rb ≥ 2 → 0 ≤ o.celtRed1) ∧ (rb < 2 → o.celtRed1 < 0)) &&
+  decide (run → (nb ≥ 2 → 0 ≤ o.celtMain ∧ o.celtMain ≤ nb) ∧ (nb < 2 → o.celtMain < 0)) &&
+  decide (redundancy ∧ ¬ celtToSilk → s.mode = MODE_HYBRID → (run → o.used2 ≤ o.celtMain) ∧ (¬ run → o.used2 = o.used1)) &&
+  decide (redundancy ∧ ¬ celtToSilk → (rb ≥ 2 → 0 ≤ o.celtRed2) ∧ (rb < 2 → o.celtRed2 < 0))
+
+/-- Contract of the last reading (:2434), consulted unless the DTX return (:2425) is taken. -/
+def finishOk (s : St) (fi : FrameIn) (o : FrameOr) : Bool :=
+  decide (s.mode = MODE_SILK_ONLY → (dtxDecision s fi o).1 ≠ 0 ∨ o.tellE = o.tellC)
 
 /-- The contract along the path of `frameNative s fi o`. -/
 def frameOk (s : St) (fi : FrameIn) (o : FrameOr) : Bool :=
@@ -315,6 +375,6 @@ def frameOk (s : St) (fi : FrameIn) (o : FrameOr) : Bool :=
    | .cont x =>
      tellsOk p.st.mode fi.maxDataBytes x.redundancy o &&
      (let r := frRedSig fi x o
-      celtOk r.2.2 fi r.1 x.celtToSilk r.2.1 o))
+      coderOk r.2.2 fi r.1 x.celtToSilk r.2.1 o && finishOk r.2.2 fi o))
 
 end Opus.EncSkel
